@@ -110,6 +110,21 @@ fn temperature_convert(q: Q, to: usize) -> Option<Q> {
     TEMPERATURE_CONVERTER.convert(&qty, us[to]).map(un::<Temperature>)
 }
 
+/// A whole number times (1 +- j * 2^-44), j in 1..=12: about 6e-14 to 7e-13
+/// beside it (relative).
+fn near_whole(t: &mut Tape) -> Rat {
+    let n = match t.small_int(2000) {
+        0 => 1,
+        n => n,
+    };
+    let j = 1 + t.below(12) as i64;
+    let j = if t.bool(1, 2) { -j } else { j };
+    let one = Rat::one();
+    let ri = |v: i64| if v < 0 { Rat::from_u64(v.unsigned_abs()).neg() } else { Rat::from_u64(v as u64) };
+    let eps = ri(j).mul_pow2(-44);
+    ri(n).mul(&one.add(&eps))
+}
+
 fn decode(t: &mut Tape) -> Case {
     if t.bool(2, 5) {
         let from = t.below(3);
@@ -118,6 +133,11 @@ fn decode(t: &mut Tape) -> Case {
         let x = if t.bool(1, 4) {
             // landmarks
             [amt::zero(), amt::typed(-27315, 2), amt::typed(27315, 2), amt::from_i64(32), amt::from_i64(-40), amt::typed(-45967, 2), amt::from_i64(100), amt::from_i64(212)][t.below(8)]
+        } else if t.bool(1, 4) {
+            // a result next to a whole number (a few hundred ulps beside it):
+            // the operand is solved from the exact inverse formula
+            let target = near_whole(t);
+            amt::nearest(&temp_exact(&target, to, from)).unwrap_or_else(amt::zero)
         } else {
             gen_amount(t, Dom::Moderate)
         };
@@ -161,7 +181,20 @@ fn decode(t: &mut Tape) -> Case {
     let to = t.below(n);
     // special values are an f64 matter; under decimal the extremes only overflow
     let special = t.bool(1, 6) && cfg!(not(feature = "dec"));
-    let x = if special { gen_amount(t, Dom::Any) } else { gen_amount(t, Dom::Moderate) };
+    let mut x = if special { gen_amount(t, Dom::Any) } else { gen_amount(t, Dom::Moderate) };
+    if !special && unit != to && t.bool(1, 4) {
+        // a result next to a whole number, solved from the first entry for the pair
+        if let Some(e) = entries.iter().find(|e| e.from == unit && e.to == to) {
+            if let (Some(f), Some(o)) = (amt::from_key(&e.factor).and_then(amt::to_rat), amt::from_key(&e.offset).and_then(amt::to_rat)) {
+                if !f.is_zero() {
+                    let target = near_whole(t);
+                    if let Some(v) = amt::nearest(&target.sub(&o).div(&f)) {
+                        x = v;
+                    }
+                }
+            }
+        }
+    }
     Case::Table {
         host,
         note: format!("{}: {} unit #{} -> unit #{} through {} entries", hs[host].name, amt::show(x), unit, to, entries.len()),
